@@ -74,7 +74,43 @@ def generate(rng, tier):
                 files[g] = files[g] + "fn ig%d() { let _ = 0b12; }\n" % i
         if cfg:
             files["c%d/rustfmt.toml" % i] = cfg
+    # a module file outside every crate directory, declared by two or more of the roots through #[path]: what an
+    # earlier root did with it (parsed it, failed on it) must not change what a later root does
+    shared = {}
+    if nroots >= 2 and rng.chance(35):
+        sh = "shared/p_shared.rs"
+        files[sh] = gen_rust.unformatted(rng, 1 + rng.below(2))
+        users = sorted(rng.sample(list(range(nroots)), rng.range(2, nroots)))
+        for i in users:
+            root = trees[i]["root"]
+            rel = os.path.relpath(sh, os.path.dirname(root))
+            files[root] = '#[path = "%s"]\nmod p_shared;\n' % rel + core.file_bytes(files[root]).decode()
+            trees[i]["reach"].append(sh)
+            trees[i].setdefault("decls", []).append([root, "p_shared", sh])
+        shared[sh] = users
+    # a second root in the directory of one of the roots (src/main.rs next to src/lib.rs), both declaring the same
+    # module file with the same spelling
+    twin = None
+    if rng.chance(30):
+        i0 = rng.below(nroots)
+        root0 = trees[i0]["root"]
+        d0 = os.path.dirname(root0)
+        name = "p_twsh%d" % i0
+        tw, sh2 = os.path.join(d0, "twin%d.rs" % i0), os.path.join(d0, name + ".rs")
+        files[sh2] = gen_rust.unformatted(rng, 1 + rng.below(2))
+        files[tw] = "mod %s;\n" % name + gen_rust.unformatted(rng, 1)
+        files[root0] = "mod %s;\n" % name + core.file_bytes(files[root0]).decode()
+        trees[i0]["reach"].append(sh2)
+        trees[i0].setdefault("decls", []).append([root0, name, sh2])
+        trees.append({"base": trees[i0]["base"], "root": tw, "reach": [tw, sh2], "decoys": [], "skipped": [], "dontcare": [],
+                      "features": ["twin"], "decls": [[tw, name, sh2]], "meta": {}})
+        shared[sh2] = [i0, nroots]
+        twin = [i0, nroots]
+        order.insert(rng.below(len(order) + 1), nroots)
+        if rng.chance(25):
+            victims = [nroots]
     return {
+        "shared": shared, "twin": twin,
         "world": {"files": files}, "trees": trees, "order": order, "victims": victims, "kind": kind,
         "sub": rng.below(1000), "mode": list(mode), "cwd": rng.choice([".", ".", "c0"]),
         "abs": rng.chance(25), "hashseed": rng.below(1 << 32), "positions": None, "ignored": ignored,
@@ -212,6 +248,14 @@ def execute(case):
             extra, plan, env, rootarg = r1
             rootargs = {v1: rootarg}
             hit = {v1}
+            users = (case.get("shared") or {}).get(pos)
+            if users:
+                # damage in a file several roots declare: each of them fails (faults that fire once -- an errno, an
+                # injected panic -- only hit the first root that gets there and are not generated here)
+                if case["kind"] in ("panic", "open-errno", "read-errno"):
+                    continue
+                hit |= set(users)
+                v.probe("shared-file-damaged")
             for v2 in victims[1:]:
                 if case["kind"] == "panic":
                     continue  # one panic specification per process
@@ -221,6 +265,11 @@ def execute(case):
                 plan = plan + r2[1]
                 rootargs[v2] = r2[3]
                 hit.add(v2)
+            tw = case.get("twin")
+            if tw and case["kind"] == "badconfig" and hit & set(tw):
+                if plan:
+                    continue  # (an errno that fires once fails whichever of the two roots comes first)
+                hit |= set(tw)  # the unusable config sits in the directory both roots live in
             allvict = hit if case["kind"] != "configpath" else set(range(len(trees)))
             _one(case, v, sc, world, pos, extra, plan, env, rootargs, allvict)
     return v
@@ -298,14 +347,25 @@ def _one(case, v, sc, world, pos, extra, plan, env, rootargs, allvict):
         for f in trees[i]["reach"]:
             vict_files.add(os.path.normpath(f))
         vict_files.add(os.path.normpath(trees[i]["base"]))
+    surv_files = {os.path.normpath(f) for i in survivors for f in trees[i]["reach"]}
+
+    def surv_owned(p):
+        """a file a surviving root reaches (it may live in a failing root's directory: src/main.rs and src/lib.rs),
+        or the .bk / .tmp sibling of one"""
+        p = os.path.normpath(p)
+        if p in surv_files:
+            return True
+        stem, ext = os.path.splitext(p)
+        return ext in (".bk", ".tmp") and any(os.path.splitext(f)[0] == stem for f in surv_files)
+
     for e in res.muts():
         for p in (e.path, e.path2):
             if isinstance(p, str) and os.path.basename(p).startswith("rustc-ice"):
                 continue  # dropped into the cwd by rustc's ICE hook on any panic; not a source file
-            if isinstance(p, str) and _under(p, [trees[i]["base"] for i in allvict]):
+            if isinstance(p, str) and _under(p, _terr(trees, allvict)) and not surv_owned(p):
                 v.add("C05:victim-tree-mutated|%s" % e.op, "%s: %s ; %s" % (tag, e.raw, det))
     for p in diff:
-        if _under(p, [trees[i]["base"] for i in allvict]) and not os.path.basename(p).startswith("rustc-ice"):
+        if _under(p, _terr(trees, allvict)) and not os.path.basename(p).startswith("rustc-ice") and not surv_owned(p):
             v.add("C05:victim-tree-changed", "%s: %s before/after %s" % (tag, p, diff[p]))
     # oracle 3: survivors processed exactly as without the victim
     if mode in ("files", "backup"):
@@ -326,12 +386,17 @@ def _one(case, v, sc, world, pos, extra, plan, env, rootargs, allvict):
         if not survivors and kind == "configpath" and res.stdout.strip() and mode in ("stdout", "check"):
             v.add("C05:output-for-victim", "%s: stdout=%r" % (det, res.stdout[:200]))
     # oracle 5: nothing outside the survivors' trees is written
-    allowed_bases = [trees[i]["base"] for i in survivors]
+    allowed_bases = _terr(trees, survivors)
+    for sh, users in (case.get("shared") or {}).items():
+        if set(users) & set(survivors):
+            allowed_bases.append(os.path.dirname(sh))
+            if set(users) & set(allvict):
+                v.probe("shared-file-of-victim-and-survivor")
     for p in diff:
         if os.path.basename(p).startswith("rustc-ice"):
             continue
-        if not _under(p, allowed_bases) or mode not in ("files", "backup"):
-            if not _under(p, [trees[i]["base"] for i in allvict]):
+        if not (_under(p, allowed_bases) or surv_owned(p)) or mode not in ("files", "backup"):
+            if not _under(p, _terr(trees, allvict)):
                 v.add("C05:foreign-path-written", "%s: %s" % (tag, p))
     if len(order) > 1 and order.index(sorted(allvict)[0]) < len(order) - 1 and survivors:
         v.probe("survivor-after-failing-root")
@@ -351,6 +416,12 @@ def _kindclass(kind, pos, case):
     if kind == "open-errno":
         k = "open-errno"
     return "%s@%s" % (k, where)
+
+
+def _terr(trees, idx):
+    """the part of the world that belongs to these roots: their crate directories; for a twin root (a second root
+    inside another root's directory) just the root file itself"""
+    return [trees[i]["root"] if "twin" in trees[i].get("features", []) else trees[i]["base"] for i in idx]
 
 
 def _under(p, bases):
